@@ -40,6 +40,7 @@ func main() {
 	sumPath := flag.String("summary", "", "summary json output")
 	histDir := flag.String("histdir", "", "directory to save every history as JSON (replayable)")
 	replay := flag.String("replay", "", "history JSON to replay")
+	prop := flag.String("prop", "", "property whose monitor must keep failing (mode shrink)")
 	firstID := flag.Int("firstid", 0, "id of the first history")
 	k3 := flag.Float64("k3", 0, "probability that a generated call targets the module-registered service (known finding K3)")
 	flag.Parse()
@@ -101,6 +102,8 @@ func main() {
 	switch *mode {
 	case "purekeys":
 		fmt.Printf("purekeys cases=%d\n", runPureKeys(out, *seed, *n))
+	case "shrink":
+		runShrink(w, *replay, *prop, *outPath+".min.json")
 	case "replay":
 		b, err := os.ReadFile(*replay)
 		must(err)
